@@ -10,7 +10,9 @@ EXTRACT = ("theories/Extract/XC14.v", "c14",
            ["entry_mec_ok", "entry_chrystal_many", "entry_sweep_many", "entry_feret_max", "entry_feret_min_ok", "entry_feret_lower_ok",
             "entry_fill_model", "entry_fill_check", "entry_fill_hyp", "entry_chrystal_hyp_many", "entry_chrystal_vec", "entry_strict_convex_many", "entry_bf_min_many"])
 PYX = {}
-RULE = ("ROUND 2 additions: 40 % of the cases as dtype/layout variants (label image int8..int64, uint8..uint64; C, Fortran, "
+RULE = ("ROUND 4: NO length bound - 1 x N, N x 1, 3 x N label images and slanted thin point bands with N up to 200 000 "
+        "(squared lengths beyond 2^31) through the labels path and through convex_hull_ijv; wide objects at coordinates up "
+        "to 1 000 000 through hull point lists computed exactly by the harness. ROUND 2 additions: 40 % of the cases as dtype/layout variants (label image int8..int64, uint8..uint64; C, Fortran, "
         "strided view, read-only; index list as list, tuple or array of any integer dtype; hull array int16/int32/int64 in "
         "the same four layouts); 300-420 objects in one call; 1-3 x N images up to N = 3000; consecutive labels sharing scan "
         "rows; point sets with coordinates up to 32 000 through convex_hull_ijv; every function is called twice on the same "
@@ -30,12 +32,18 @@ TRUSTED = [
     "Python proposes the MEC certificate (support points, weights, exact circle) and the exact width; only the extracted "
     "verified checkers accept it",
 ]
-ASSUMPTIONS = ["squared object diameter < 2^31 (feret_diameter squares coordinate differences in the hull's own int32): "
-               "coordinates are generated up to 32 000 (diagonal 45 254 < 46 341); above diameter 9 741 the float cross "
-               "products squared exceed 2^53 and are rounded, results are still compared against the exact values",
-               "hull arrays keep a signed integer type wide enough for squared coordinate differences (int32 as produced by "
-               "convex_hull, int64, int16 only for extents <= 120); unsigned or narrower hull arrays give wrong results "
-               "(findings/C14.json, candidate)",
+ASSUMPTIONS = ["NO bound on object length for the three functions of C14: objects up to 200 000 px long are generated (squared "
+               "lengths far beyond 2^31).  The only size bound concerns the HULL STEP that feeds them: convex_hull's "
+               "CONVEX() cross product wraps in int32 once a triangle of doubled area >= 2^31 is met (C02's known finding), so "
+               "objects that are both long AND wide are kept below 32 000 x 32 000 and the longer ones are thin (doubled "
+               "areas below 2^31); a failure whose hull differs from the exact hull because of that wrap is attributed to it",
+               "float64 exactness (observation, not a bound of the check): above diameter 9 741 the squared cross products "
+               "of the sweep exceed 2^53 and above coordinate 9.5e7 the squares in the circumcentre formula do (hunt/C14 "
+               "violation 3, a 2 x 1e8 image); the exact-predicate models state agreement below these, results are still "
+               "compared against exact values at 1e-7 / 1e-9 relative",
+               "hull arrays keep a signed integer type wide enough for coordinate differences (int32 as produced by "
+               "convex_hull, int64, int16 only for extents <= 120); caller-retyped unsigned or narrower hull arrays are "
+               "outside the contract (reports/C14.md)",
                "index lists hold distinct positive labels, at least one of them present in the image"]
 EXHAUSTIVE = {"quick": False, "thorough": False}
 CASE_TIMEOUT = 30
@@ -198,6 +206,66 @@ LAYOUTS = ["C", "F", "strided", "readonly"]
 COORD_MAX = 32000          # diagonal 45 254 < 46 341 = ceil(sqrt(2^31))
 
 
+def _exact_hull(pts):
+    """strict convex hull (no collinear vertices) of integer points, exact, counter-clockwise in (i, j)"""
+    pts = sorted(set(map(tuple, pts)))
+    if len(pts) <= 2:
+        return [list(p) for p in pts]
+
+    def cr(o, a, b):
+        return (a[0] - o[0]) * (b[1] - o[1]) - (a[1] - o[1]) * (b[0] - o[0])
+    lo, up = [], []
+    for p in pts:
+        while len(lo) >= 2 and cr(lo[-2], lo[-1], p) <= 0:
+            lo.pop()
+        lo.append(p)
+    for p in reversed(pts):
+        while len(up) >= 2 and cr(up[-2], up[-1], p) <= 0:
+            up.pop()
+        up.append(p)
+    return [list(p) for p in lo[:-1] + up[:-1]]
+
+
+def _big_wide(ctx, rng):
+    """objects that are long AND wide at coordinates up to 1 000 000, handed to feret_diameter and
+    minimum_enclosing_circle as hull point lists computed exactly by the harness (convex_hull is bypassed: its
+    CONVEX() wraps for triangles of doubled area >= 2^31, C02's known finding)"""
+    scale = int(rng.choice([60000, 200000, 1000000]))
+    k = int(rng.randint(1, 4))
+    labs = [int(x) for x in rng.permutation(np.arange(1, k + 3))[:k]]
+    rows = []
+    for l in labs:
+        off = rng.randint(0, scale, 2) if rng.rand() < 0.5 else (0, 0)
+        u = rng.rand()
+        if u < 0.3:
+            a, b = rng.randint(scale // 2, scale, 2)
+            pts = [(0, 0), (0, b), (a, b), (a, 0)] + [(rng.randint(0, a + 1), rng.randint(0, b + 1)) for _ in range(rng.randint(0, 5))]
+        elif u < 0.5:
+            a = rng.randint(scale // 2, scale)
+            # (no slivers here: beyond ~1.9e5 px the arccos-based angle test of minimum_enclosing_circle trips its
+            #  own assert for some storage orders - float conditioning, see reports/C14.md round 4)
+            pts = [(0, 0), (a, 0), (0, int(rng.choice([a // 3, a // 2, a]))), (1, 1)]
+        else:
+            pts = [(rng.randint(0, scale), rng.randint(0, scale)) for _ in range(rng.randint(1, 12))]
+        for p in set((int(p[0] + off[0]), int(p[1] + off[1])) for p in pts):
+            rows.append([p[0], p[1], l])
+    rng.shuffle(labs)
+    ctx.count("class:big_wide_exact_hull<=%d" % scale)
+    return {"ijv": rows, "hull_by": "harness", "labels": [[0]], "indexes": labs,
+            "order": str(rng.choice(["fwd", "rev", "rot"])), "rot": [int(rng.randint(0, 8)) for _ in labs]}
+
+
+def _lab_array(case, dtype="int64"):
+    """the label image of a case; long thin images are stored sparsely as {"shape", "pix": [[i, j, label], ...]}"""
+    if "sparse" in case:
+        sp = case["sparse"]
+        lab = np.zeros(tuple(sp["shape"]), dtype)
+        for i, j, l in sp["pix"]:
+            lab[i, j] = l
+        return lab
+    return np.array(case["labels"], dtype)
+
+
 def _variant(ctx, rng, case, top_label, extent):
     """dtype / memory-layout / container variants of the same mathematical input (40 % of the cases)"""
     if rng.rand() < 0.6:
@@ -345,6 +413,60 @@ def _big_coords(ctx, rng):
     return case
 
 
+def _long_thin(ctx, rng):
+    """Objects 46 341 px and longer (up to 200 000): squared lengths beyond 2^31.  Long THIN objects only, so that
+    every cross product inside convex_hull's CONVEX() stays below 2^31 (its int32 wrap is C02's known finding):
+    1 x N, N x 1 and 3 x N label images (stored sparsely, a few pixels per object) through the labels path, and
+    point lists near a slanted line through convex_hull_ijv / hull_and_point_count."""
+    n = int(rng.choice([46342, 46400, 50000, 65536, 70000, 100000, 200000, int(rng.randint(46342, 200001))]))
+    u = rng.rand()
+    k = int(rng.randint(1, 4))
+    labs = [int(x) for x in rng.permutation(np.arange(1, k + 3))[:k]]
+    order = str(rng.choice(["fwd", "fwd", "rev", "rot"]))
+    w = int(rng.choice([1, 1, 3]))
+    if not (u < 0.6 and w == 1):
+        n = min(n, 150000)      # objects with >= 3 hull vertices: slivers stay below the arccos conditioning limit (~1.9e5)
+    if u < 0.6:
+        pix = []
+        for l in labs:
+            lo, hi = sorted(rng.randint(0, n, 2).tolist())
+            if rng.rand() < 0.7:
+                lo, hi = int(rng.randint(0, 50)), n - 1 - int(rng.randint(0, 50))       # (almost) the full length
+            cols = {lo, hi} | set(rng.randint(lo, hi + 1, int(rng.randint(0, 12))).tolist())
+            for j in cols:
+                pix.append([int(rng.randint(w)), int(j), l])
+        pix = [list(x) for x in {(i, j): (i, j, l) for i, j, l in pix}.values()]
+        labs = [l for l in labs if any(p[2] == l for p in pix)]
+        shape = [w, n]
+        if rng.rand() < 0.4:
+            pix = [[j, i, l] for i, j, l in pix]
+            shape = [n, w]
+        rng.shuffle(labs)
+        ctx.count("class:long_thin_image_%s" % ("1xN" if w == 1 else "3xN"))
+        case = {"sparse": {"shape": shape, "pix": pix}, "labels": [[0]], "indexes": labs, "order": order,
+                "rot": [int(rng.randint(0, 8)) for _ in labs]}
+        if rng.rand() < 0.5:
+            case["ldtype"] = str(rng.choice(["uint8", "int16", "int32", "int64", "uint16"]))
+            case["llayout"] = str(rng.choice(LAYOUTS))
+            case["idx_kind"] = str(rng.choice(["list", "tuple", "int32", "uint8"]))
+            case["hdtype"] = str(rng.choice(["int32", "int64"]))
+            case["hlayout"] = str(rng.choice(LAYOUTS))
+        return case
+    # a thin band around a slanted line: doubled triangle areas stay far below 2^31
+    rows = []
+    for l in labs:
+        si, sj = rng.randint(0, 4), rng.randint(1, 4)
+        m = n // max(si, sj)
+        oi, oj = int(rng.randint(0, 1000)), int(rng.randint(0, 1000))
+        ts = {0, m - 1} | set(rng.randint(0, m, int(rng.randint(0, 10))).tolist())
+        for t in ts:
+            rows.append([oi + int(t) * int(si) + int(rng.randint(0, 3)), oj + int(t) * int(sj) + int(rng.randint(0, 3)), l])
+    rows = [list(x) for x in set(map(tuple, rows))]
+    rng.shuffle(labs)
+    ctx.count("class:long_thin_points_slanted")
+    return {"ijv": rows, "labels": [[0]], "indexes": labs, "order": order, "rot": [int(rng.randint(0, 8)) for _ in labs]}
+
+
 def _corpus():
     cs = []
 
@@ -363,6 +485,14 @@ def _corpus():
         one([[0, 1, 0], [1, 1, 1], [0, 1, 0]], order=o)      # plus sign: diamond hull
         one([[1, 0, 0, 0, 0], [0, 0, 0, 0, 2], [0, 0, 1, 0, 0], [2, 0, 0, 0, 0], [0, 0, 0, 1, 2]], [2, 1], order=o)
     one([[3, 3, 0, 1], [3, 3, 0, 1], [0, 0, 0, 0], [2, 0, 0, 0]], [2, 4, 3, 1])   # absent label 4
+    # objects longer than sqrt(2^31) pixels (outside tester, hunt/C14 violation 2)
+    for n in (46342, 70000, 200000):
+        cs.append({"sparse": {"shape": [1, n], "pix": [[0, 0, 1], [0, n - 1, 1]]}, "labels": [[0]], "indexes": [1],
+                   "order": "fwd", "rot": [0]})
+        cs.append({"sparse": {"shape": [n, 1], "pix": [[0, 0, 1], [n - 1, 0, 1], [n // 3, 0, 1]]}, "labels": [[0]],
+                   "indexes": [1], "order": "fwd", "rot": [0]})
+    cs.append({"sparse": {"shape": [3, 70000], "pix": [[0, 0, 1], [0, 69999, 1], [1, 30000, 1], [2, 30000, 1]]},
+               "labels": [[0]], "indexes": [1], "order": "fwd", "rot": [0]})
     return cs
 
 
@@ -387,6 +517,10 @@ def generate(ctx):
         cases.append(_shared_rows(ctx, rng))
     for _ in range(ctx.n(150, 2500)):
         cases.append(_big_coords(ctx, rng))
+    for _ in range(ctx.n(60, 900)):
+        cases.append(_long_thin(ctx, rng))
+    for _ in range(ctx.n(60, 900)):
+        cases.append(_big_wide(ctx, rng))
     return cases
 
 
@@ -415,11 +549,15 @@ def impl(case):
             a.flags.writeable = False
         return a
 
-    lab = lay(np.array(case["labels"], case.get("ldtype", "int64")), case.get("llayout", "C"))
+    lab = lay(_lab_array(case, case.get("ldtype", "int64")), case.get("llayout", "C"))
     ik = case.get("idx_kind", "list")
     idx = list(case["indexes"])
     idx = idx if ik == "list" else tuple(idx) if ik == "tuple" else np.array(idx, ik)
-    if "ijv" in case:
+    if case.get("hull_by") == "harness":
+        hs = [_exact_hull([r[:2] for r in case["ijv"] if r[2] == l]) for l in case["indexes"]]
+        hull = np.array([[l, p[0], p[1]] for l, h in zip(case["indexes"], hs) for p in h], np.int32).reshape(-1, 3)
+        cnt = np.array([len(h) for h in hs], np.int32)
+    elif "ijv" in case:
         hull, cnt = M.convex_hull_ijv(np.array(case["ijv"], np.int32).reshape(-1, 3), np.array(case["indexes"]))
     else:
         hull, cnt = M.convex_hull(lab, idx)
@@ -473,7 +611,7 @@ def impl(case):
         return {"min": _clean(mn), "max": _clean(mx)}
 
     def fill():
-        if len(hull) and "ijv" in case:
+        if len(hull):
             # rows = area of the polygons: only filled when the bounding boxes stay small
             area = rows_ = 0
             off = 0
@@ -510,7 +648,7 @@ def _exc(o):
 
 def _objects(case, out):
     """per requested label: (label, pixel list, hull vertex list as passed to the functions)"""
-    lab = np.array(case["labels"], int)
+    lab = None if ("sparse" in case or "ijv" in case) else np.array(case["labels"], int)
     res = []
     off = 0
     for k, l in enumerate(case["indexes"]):
@@ -519,6 +657,8 @@ def _objects(case, out):
         off += c
         if "ijv" in case:
             pix = sorted([r[0], r[1]] for r in case["ijv"] if r[2] == l)
+        elif "sparse" in case:
+            pix = sorted([r[0], r[1]] for r in case["sparse"]["pix"] if r[2] == l)
         else:
             pix = np.argwhere(lab == l).tolist()
         res.append((l, pix, h))
@@ -864,12 +1004,40 @@ def _check_feret_fill(ctx, cases, outs, res):
                           "each once with its label (Spec.FillSpec.fill_ok false); %d rows" % len(a[1]))
 
 
+C02_WRAP = "C02-CONVEX-int32"
+
+
+def attribute(ctx, case, out, clause):
+    """A failure is attributed to C02's known finding (CONVEX() of _convex_hull.pyx wraps in int32) when the hull
+    that convex_hull returned for some object is not the exact hull of its pixels AND the object is large enough for
+    a wrap (doubled bounding-box area >= 2^31).  Anything else stays a violation of C14."""
+    if _bad(out) or case.get("hull_by") == "harness":
+        return None
+    for l, pix, h in _objects(case, out):
+        if not pix:
+            continue
+        P = np.array(pix, dtype=np.int64)
+        if 2 * int(P[:, 0].max() - P[:, 0].min() + 1) * int(P[:, 1].max() - P[:, 1].min() + 1) < 2 ** 31:
+            continue
+        if sorted(map(tuple, h)) != sorted(map(tuple, _exact_hull(pix))):
+            return C02_WRAP
+    return None
+
+
+def reproduce_finding(ctx, finding):
+    if finding.get("id") != C02_WRAP:
+        return False
+    out = ctx.run_impl([finding["witness"]])[0]
+    return (not _bad(out)) and out["cnt"] != [3]
+
+
 def nontrivial(case, out):
     return (not _bad(out)) and any(c >= 3 for c in out["cnt"])
 
 
 def kernel_crosscheck(ctx, cases, outs):
     idx = [k for k, c in enumerate(cases) if not _bad(outs[k]) and len(c["indexes"]) <= 3
+           and "sparse" not in c and "ijv" not in c and outs[k].get("fill") != "not-run"
            and len(c["labels"]) * len(c["labels"][0]) <= 150][:36]
     if not idx:
         return None, 0
@@ -904,6 +1072,31 @@ def shrink_candidates(case):
             if key in case:
                 c2 = dict(case)
                 del c2[key]
+                yield c2
+        return
+    if "sparse" in case:
+        sp = case["sparse"]
+        for key in ("ldtype", "llayout", "idx_kind", "hdtype", "hlayout"):
+            if key in case:
+                c2 = {k: v for k, v in case.items() if k not in ("ldtype", "llayout", "idx_kind", "hdtype", "hlayout")}
+                yield c2
+                break
+        if case["order"] != "fwd":
+            c2 = dict(case)
+            c2["order"] = "fwd"
+            yield c2
+        if len(case["indexes"]) > 1:
+            for k in range(len(case["indexes"])):
+                c2 = dict(case)
+                c2["indexes"] = case["indexes"][:k] + case["indexes"][k + 1:]
+                c2["rot"] = case["rot"][:len(c2["indexes"])]
+                c2["sparse"] = {"shape": sp["shape"], "pix": [r for r in sp["pix"] if r[2] in c2["indexes"]]}
+                yield c2
+        for k in range(len(sp["pix"])):
+            rest = sp["pix"][:k] + sp["pix"][k + 1:]
+            if all(any(r[2] == l for r in rest) for l in case["indexes"]):
+                c2 = dict(case)
+                c2["sparse"] = {"shape": sp["shape"], "pix": rest}
                 yield c2
         return
     lab = np.array(case["labels"], int)
